@@ -66,11 +66,9 @@ theorem convertDoc_choices (wb : Workbook) (doc : Node) (h : convertDoc wb = .ok
                               · split at h
                                 · simp at h
                                 · split at h
+                                  · simp only [Except.ok.injEq] at h
+                                    exact ⟨ch, f, _, _, _, _, _, _, hch, hval, h.symm⟩
                                   · simp at h
-                                  · split at h
-                                    · simp only [Except.ok.injEq] at h
-                                      exact ⟨ch, f, _, _, _, _, _, _, hch, hval, h.symm⟩
-                                    · simp at h
 
 
 /-! ## the `<instance id=…>` children of the model -/
